@@ -429,3 +429,60 @@ mk('stor_shared_array_in_sub', ['i%', 'v&'],
              [L(('idx', 'g&', [var('k%')]), var('x&')),
               L(var('h%'), B('+', var('h%'), I(1)))])],
    family='storage')
+
+# ------------------------------------------------- debugger evaluation (C13)
+mk('dbg_eval_main', ['a%', 'b&', 'i%'],
+   [L(('idx', 'arr&', [I(1)]), LG(11)), L(('idx', 'arr&', [I(2)]), var('b&')),
+    L(('fld', var('p'), ['x'], '%'), var('a%')),
+    L(('fld', var('p'), ['y'], '&'), LG(7)),
+    L(('fld', var('o'), ['q', 'x'], '%'), I(9)),
+    L(var('g%'), I(3)),
+    P(var('a%')), P(var('b&')),
+    P(B('+', var('a%'), var('k%'))),
+    P(('idx', 'arr&', [var('i%')])),
+    P(('fld', var('p'), ['x'], '%')), P(('fld', var('p'), ['y'], '&')),
+    P(('fld', var('o'), ['q', 'x'], '%')),
+    P(B('*', var('g%'), var('k%'))),
+    P(B('<', var('a%'), var('b&'))),
+    P(U('-', var('k%')))],
+   head=[('const', 'k%', I(7)),
+         ('dim', 'shared', [('g%', None, None)]),
+         ('dim', 'dim', [('arr&', [(I(0), I(2))], None)]),
+         ('dim', 'dim', [('p', None, 'pt')]),
+         ('dim', 'dim', [('o', None, 'outer')])],
+   types=[('pt', [('x%', None), ('y&', None)]),
+          ('outer', [('q', 'pt'), ('n%', None)])],
+   pre='-30000 <= x0 <= 30000 and -2 <= x2 <= 4', family='dbgeval',
+   budget=900)
+mk('dbg_eval_str', ['s$', 't$'],
+   [L(('idx', 'n$', [I(1)]), var('t$')),
+    P(var('s$')), P(B('+', var('s$'), S('!'))), P(('idx', 'n$', [I(1)])),
+    P(B('=', var('s$'), var('t$'))), P(('idx', 'n$', [I(0)])),
+    P(var('c$'))],
+   head=[('const', 'c$', S('const')),
+         ('dim', 'dim', [('n$', [(I(0), I(1))], None)])],
+   family='dbgeval', strlen=2, budget=600)
+mk('dbg_eval_procs', ['a%', 'n%'],
+   [L(var('g&'), LG(100)),
+    ('callsub', 'work', [var('a%'), B('+', var('a%'), I(1))]),
+    P(('call', 'depth%', [var('n%')])),
+    ('callsub', 'work', [var('a%'), I(5)])],
+   head=[('dim', 'shared', [('g&', None, None)])],
+   subs=[Sub('work', 'sub', [('x%', None), ('y%', None)],
+             [('dim', 'static', [('calls%', None, None)]),
+              L(var('calls%'), B('+', var('calls%'), I(1))),
+              L(var('lc&'), B('+', var('g&'), var('y%'))),
+              P(var('x%')), P(var('y%')), P(var('calls%')),
+              P(var('lc&')), P(var('g&')),
+              P(B('+', var('x%'), var('calls%')))]),
+         Sub('depth%', 'function', [('k%', None)],
+             [L(var('mine%'), B('*', var('k%'), I(2))),
+              P(var('k%')), P(var('mine%')),
+              ('if', [(B('>', var('k%'), I(0)),
+                       [('setret', B('+', I(1),
+                                     ('call', 'depth%',
+                                      [B('-', var('k%'), I(1))])))])],
+               [('setret', I(0))]),
+              P(var('mine%'))])],
+   pre='-30000 <= x0 <= 30000 and 0 <= x1 <= 2', family='dbgeval',
+   budget=1500)
